@@ -46,7 +46,8 @@ def gen(rng, n):
             # early operations whose control frames must vanish with the rejection
             d["NO_REDO"] = 1
             d["NBIDI"] = rng.range(1, 2)
-            d["EARLY_STOP"] = rng.below(2)
+            d["EARLY_STOP"] = rng.choice([0, 1, 300, 900])   # us after opening (1 = at once)
+            d["DELAY_MIN"] = d["DELAY_MAX"] = rng.choice([1000, 5000])
             if rng.chance(1, 2):
                 d["RESET_AT_BYTES"] = 1
             d.pop("NDGRAM", None)
